@@ -486,6 +486,12 @@ def check_compile(h, scn, mods, expects, before, after, pdkname, repeat, fail, p
                 return
             probe("selection_checked:" + exp["kind"])
             # ports: the device's ports are exactly the connected ones
+            # "netlists in spice and spectre format": a device name must be a plain identifier there
+            # (a dot is the hierarchy separator of both formats)
+            import re as _re
+
+            if not _re.match(r"^[A-Za-z_][A-Za-z0-9_$]*$", new_of.module.name or ""):
+                fail("device-name-not-netlistable", f"PM{mid}.{iname}: device name {new_of.module.name!r} is not an identifier a spice / spectre netlist can carry")
             dports = [p.name for p in new_of.module.port_list]
             if sorted(dports) != sorted(inst.conns.keys()):
                 fail("device-ports-mismatch", f"PM{mid}.{iname}: device {new_of.module.name} has ports {dports}, instance connects {sorted(inst.conns.keys())}")
